@@ -24,7 +24,7 @@ import (
 func init() {
 	Registry["C14"] = &Check{
 		Scenarios: c14Scenarios,
-		Rule: "events: CloseNotify requested {inside the first handler, by a free application thread at every possible instant (in particular while the reader is parked in Read), twice (handler + thread), after termination}; two messages delivered in three fragments (one fragment boundary inside the first header); termination by {peer EOF, transport read error, a read error that reports itself as temporary (once), EOF / read error returned by the same Read that delivers the last message (n > 0 with err != nil), undecodable header followed by trailing bytes, local Close from a free thread at every instant, a handler panic on the second message (recovered by the serve loop)}; an observer thread records the instant the channel closes. The requesting / closing / observing threads and the peer are environment threads, so every ordering of their steps against the library's steps is explored even at preemption bound 0; library preemption bound 2 (quick) / unbounded (thorough). The same request modes {handler, thread, after} x terminations {EOF, undecodable input, local Close} on a multistream (in-memory SCTP) connection, where CloseNotify installs a read-error handler. Also a local Close while an application goroutine's Write is stuck inside the transport (the peer has stopped reading). Also a connection accepted by a Server with ReadTimeout 2 s that idles into its read deadline (virtual clock), CloseNotify requested {in the handler, by a thread, not at all}. Also sm.Client with the watchdog enabled followed by a quiet peer close, preceded by 0, 1, 2 or 3 unsolicited success DWAs (in one segment or one segment each) (virtual time, horizon 12 s).",
+		Rule: "events: CloseNotify requested {inside the first handler, by a free application thread at every possible instant (in particular while the reader is parked in Read), twice (handler + thread), after termination}; two messages delivered in three fragments (one fragment boundary inside the first header); termination by {peer EOF, transport read error, a read error that reports itself as temporary (once), EOF / read error returned by the same Read that delivers the last message (n > 0 with err != nil), undecodable header followed by trailing bytes, local Close from a free thread at every instant, a handler panic on the second message (recovered by the serve loop)}; an observer thread records the instant the channel closes. The requesting / closing / observing threads and the peer are environment threads, so every ordering of their steps against the library's steps is explored even at preemption bound 0; library preemption bound 2 (quick) / unbounded (thorough). The same request modes {handler, thread, after} x terminations {EOF, undecodable input, local Close} on a multistream (in-memory SCTP) connection, where CloseNotify installs a read-error handler. Also a handler (of a message read through the switched reader) that waits on the channel while the peer ends the connection {EOF, reset}: the notifier is then the only goroutine able to observe the end. Also a local Close while an application goroutine's Write is stuck inside the transport (the peer has stopped reading). Also a connection accepted by a Server with ReadTimeout 2 s that idles into its read deadline (virtual clock), CloseNotify requested {in the handler, by a thread, not at all}. Also sm.Client with the watchdog enabled followed by a quiet peer close, preceded by 0, 1, 2 or 3 unsolicited success DWAs (in one segment or one segment each) (virtual time, horizon 12 s).",
 		Assume: []string{"data-race freedom between visible operations (audited separately with -race)", "io.Pipe is modelled by vsched.Pipe (Write blocks until the data is consumed or either end is closed)"},
 		QuickBudget: 100, ThoroughBudget: 1500,
 	}
@@ -78,6 +78,9 @@ func c14Scenarios(tier string) []*Scenario {
 	for _, req := range []string{"handler", "thread", "none"} {
 		out = append(out, c14ReadTimeout(req, bound))
 		out = append(out, c14CloseWhileWriteBlocked(req, bound))
+	}
+	for _, term := range []string{"eof", "rerr"} {
+		out = append(out, c14HandlerWaits(term, bound))
 	}
 	out = append(out, c14Watchdog(bound), c14WatchdogStray(1, false, bound), c14WatchdogStray(2, true, bound), c14WatchdogStray(2, false, bound), c14WatchdogStray(3, true, bound))
 	// client handshakes that end exactly at the deadline: whatever the outcome, once the transport
@@ -268,6 +271,97 @@ func c14Scenario(req, term string, bound int) *Scenario {
 	}
 	return &Scenario{Name: fmt.Sprintf("closenotify/%s/%s", req, term), Body: body, Check: check, Outcome: outcome, Bound: bound,
 		Split: false, Weight: map[bool]int{true: 10, false: 0}[req == "both"] + map[bool]int{true: 5, false: 0}[term == "localclose"] + map[bool]int{true: 2, false: 0}[req == "thread"]}
+}
+
+// c14HandlerWaits: the first handler requests CloseNotify; the handler of the second message (read
+// through the switched reader) does what the channel is for: it waits on it, to abandon its work
+// when the peer goes away. The serve goroutine is therefore NOT in Read when the peer closes - the
+// notifier is the only goroutine that can observe the termination. The channel must close, the
+// handler must be released, the transport closed and every goroutine must exit.
+func c14HandlerWaits(term string, bound int) *Scenario {
+	m1, m2 := c14msg(1), c14msg(2)
+	released := false
+	body := func() {
+		st := &c14State{}
+		c14st = st
+		released = false
+		conn := vnet.NewConn("A")
+		conn.Pieces = 1
+		st.conn = conn
+		mux := diam.NewServeMux()
+		mux.HandleFunc("ALL", func(c diam.Conn, m *diam.Message) {
+			st.handled = append(st.handled, m.Header.HopByHopID)
+			vs.Event("handler got message %d", m.Header.HopByHopID)
+			if len(st.handled) == 1 {
+				st.chs = append(st.chs, c.(diam.CloseNotifier).CloseNotify())
+				return
+			}
+			vs.Event("handler waits for the CloseNotify channel")
+			st.chs[0].Recv2()
+			released = true
+			if !st.termIssued {
+				st.early = "the CloseNotify channel was closed before any terminating event had occurred"
+			}
+			vs.Event("handler released")
+		})
+		if _, err := diam.NewConn(conn, "peer", mux, dict.Default); err != nil {
+			panic(err)
+		}
+		vs.GoNamed("peer", true, func() {
+			conn.Deliver(m1)
+			vs.Yield("env")
+			conn.Deliver(m2[:30])
+			vs.Yield("env")
+			conn.Deliver(m2[30:])
+			vs.Yield("env")
+			st.termIssued = true
+			switch term {
+			case "eof":
+				vs.Event("peer: EOF")
+				conn.PeerEOF()
+			case "rerr":
+				vs.Event("peer: connection reset")
+				conn.PeerErr(errors.New("connection reset by peer"))
+			case "garbage":
+				bad := make([]byte, 20)
+				bad[0], bad[3] = 1, 60
+				bad[5], bad[6], bad[7] = 0xff, 0xff, 0xfe
+				vs.Event("peer: undecodable header, then EOF")
+				conn.Deliver(bad)
+				vs.Yield("env")
+				conn.PeerEOF()
+			}
+		})
+	}
+	check := func(s *vs.Sched) string {
+		st := c14st
+		var v []string
+		if p := s.Panics(); len(p) > 0 {
+			v = append(v, "panic: "+strings.Join(p, "; "))
+		}
+		if st.early != "" {
+			v = append(v, st.early)
+		}
+		if fmt.Sprint(st.handled) != "[1 2]" {
+			v = append(v, fmt.Sprintf("handlers saw messages %v, the peer delivered [1 2]", st.handled))
+		}
+		if len(st.chs) == 1 && !st.chs[0].IsClosed() {
+			v = append(v, "the peer ended the connection ("+term+") while a handler was waiting on the CloseNotify channel, and the channel was never closed")
+		} else if !released && len(st.handled) == 2 {
+			v = append(v, "the handler waiting on the CloseNotify channel was never released")
+		}
+		if !st.conn.Closed {
+			v = append(v, "the transport was never closed although the peer ended the connection ("+term+")")
+		}
+		if b := s.BlockedLib(); len(b) > 0 {
+			v = append(v, "library goroutines still alive after the peer ended the connection: "+strings.Join(b, ", "))
+		}
+		return strings.Join(v, " | ")
+	}
+	outcome := func(s *vs.Sched) string {
+		return fmt.Sprintf("handled=%v released=%v closed=%v blockedlib=%d", c14st.handled, released, c14st.conn.Closed, len(s.BlockedLib()))
+	}
+	return &Scenario{Name: "closenotify/handler-waits/" + term, Body: body, Check: check, Outcome: outcome, Bound: bound}
 }
 
 // c14Multi: the same protocol on a multistream (SCTP) connection, where CloseNotify installs a
